@@ -2,16 +2,19 @@
 
 1. TLC checks spec/SeqPersist.tla exhaustively (chunk start 1..2, limit 4,
    scaled MAX_SEQNO 5, <= 6 protects, unprotects, crashes between any two
-   file-system effects of _store, clean shutdowns, reloads).
+   file-system effects of _store, clean shutdowns, reloads; a second run in
+   which a fresh request may skip 2w-2, 2w-1 or 2w numbers, so that the
+   replay window is shifted / left behind as a whole).
 2. spec -> code: TLC-simulated behaviours of that model are executed step by
    step on the real FilesystemSecurityContext in a temporary directory; the
    crash points of the model are injected by wrapping the os / tempfile / io
    names as seen from aiocoap.oscore (the k-th file-system effect raises a
    Crash(BaseException); the crashed object is abandoned without _destroy and
    its lock dropped; a new context is loaded from the directory).
-3. Systematic crash-point scenarios, long random histories with the default
-   chunk sizes (10 .. 10000) and MAX_SEQNO boundary runs from a hand-written
-   sequence.json are driven the same way.
+3. Systematic crash-point scenarios, scenarios whose first accepted request
+   lies far beyond the persisted window (jump_schedules), long random
+   histories with the default chunk sizes (10 .. 10000) and MAX_SEQNO
+   boundary runs from a hand-written sequence.json are driven the same way.
 4. code -> spec: every recorded history (issued partial IVs, accept/reject,
    crash/clean/load, projection of memory and directory) is validated by TLC
    against SeqPersistTrace.tla: the clauses are evaluated on the real history;
@@ -995,7 +998,10 @@ def work(rep, args):
         want = [(k, c) for k in ("protect", "unprotect", "clean") for c in range(5)]
         missing = [x for x in want if x not in crashes]
         want_beyond = ["%s, %s" % (r, h) for r in ("shift", "past") for h in ["crash after %d effects" % c for c in range(5)] + ["crash right after", "crash after protects that store nothing"]]
-        missing += [x for x in want_beyond if x not in beyond]
+        if any(r != "none" for r in regimes):
+            missing += [x for x in want_beyond if x not in beyond]
+        else:
+            rep.add_drift("the position of request numbers relative to the replay window could not be measured (ReplayWindow.persist() has no integer 'index'): coverage of requests beyond the window not established")
         if (missing or min(counters.values()) == 0) and not rep.violations:
             # (with a violation at hand the verdict stands; a broken tree may well never reach a situation)
             raise MachineryError("situations never exercised: crash points %s, counters %s" % (missing, counters))
@@ -1006,6 +1012,7 @@ def work(rep, args):
                 "states": sum(m.distinct for m in mcs),
                 "transitions": sum(m.generated for m in mcs),
                 "depth": max(m.depth for m in mcs),
+                "mc_constants": [dict(c, ChunkLimit=4, MaxSeq=5, WSize=2) for c in mc_runs],
                 "mc_runs": [
                     {"constants": dict(c, ChunkLimit=4, MaxSeq=5, WSize=2), "states": m.distinct, "transitions": m.generated, "depth": m.depth, "wall_s": round(m.wall, 1)}
                     for c, m in zip(mc_runs, mcs)
@@ -1043,8 +1050,8 @@ def work(rep, args):
         oscore_env.ASSUMPTION,
         "a crash is process death between two file-system calls of _store (mkstemp, write+flush, fsync, replace): memory lost, directory as left behind, lock and descriptors dropped; no reordering of completed disk writes (as the statement says)",
         "crashes are injected by wrapping the names os/tempfile/io as seen from aiocoap.oscore; the crashed object is abandoned without __del__/_destroy",
-        "requests come from a genuine peer (fresh numbers increase; replays are unchanged earlier requests); forgeries are C12's subject",
-        "exhaustive for the small constants recorded in mc_constants; default chunk sizes (10..10000) and the real 2^40-1 boundary are driven by systematic, random and boundary schedules and judged by TLC on the recorded histories",
+        "requests come from a genuine peer (fresh numbers increase, consecutively or with gaps up to far beyond the window; replays are unchanged earlier requests); forgeries are C12's subject",
+        "exhaustive for the small constants recorded in mc_constants (one entry per run, details in mc_runs); default chunk sizes (10..10000) and the real 2^40-1 boundary are driven by systematic, random and boundary schedules and judged by TLC on the recorded histories",
     ]
 
 
